@@ -113,6 +113,14 @@ pub fn threads() -> usize {
         })
 }
 
+/// True when a recorded panic message's location lies in the crate under
+/// test: /repo/src (path-manifest builds) or an arch-rewritten scratch copy,
+/// whose files cargo reports relative to the copy's workspace root as
+/// `memchr/src/...`.
+pub fn panic_is_in_crate(msg: &str) -> bool {
+    msg.contains("/repo/src/") || msg.contains("memchr-verif-copy") || msg.contains(" at memchr/src/")
+}
+
 /// Runs an engine's main body; a panic that escapes every per-call guard is
 /// printed as `ENGINE-PANIC: <message with location>` and the process exits
 /// 101. The driver attributes it to the crate under test when the location is
